@@ -74,14 +74,12 @@ theorem dispatchOneX_task_running (sp : Spec) (r : Bool) (w : World) (c : Cmd) (
   have h1 : isCompleted w.wf = false := by rw [hw]; decide
   have h2 : (w.wf == St.PAUSED) = false := by rw [hw]; decide
   simp only [dispatchOneX, h1, h2, hc, Bool.false_eq_true, if_false]
-  cases r with
-  | true => exact ⟨hw, rfl⟩
-  | false =>
-    simp only [Bool.false_eq_true, if_false]
-    split
-    · exact ⟨hw, rfl⟩
-    · rw [(dispatchTask_frame sp w c).1, (dispatchTask_frame sp w c).2]
-      exact ⟨hw, rfl⟩
+  split
+  · cases r with
+    | true => exact ⟨hw, rfl⟩
+    | false => exact ⟨hw, rfl⟩
+  · rw [(dispatchTask_frame sp w c).1, (dispatchTask_frame sp w c).2]
+    exact ⟨hw, rfl⟩
 
 theorem foldl_tasks_running (sp : Spec) (r : Bool) (cs : List Cmd) :
     ∀ (w : World), w.wf = .RUNNING → (∀ c ∈ cs, cmdKind c.target = .task) →
